@@ -71,17 +71,18 @@ theorem id_handed_out (m : Msg) (w : W) (hcmd : m.cmd = 3) (hle : nextId w.st.no
   rw [transportWrite_ok _ _ (by simpa using hf)]
   simp [M.pure, idResponse]
 
-/-- **Registered before the answer is written**: when the write of the answer fails, the id is
+/-- **Registered before the answer is written**: when the write of the answer does not complete —
+it fails, or the listening task is cancelled while it waits there (`f.exn = some x`) — the id is
 nevertheless taken, so it is not handed out again. -/
-theorem registered_before_written (m : Msg) (w : W) (rest : List Bool) (hcmd : m.cmd = 3)
-    (hle : nextId w.st.nodes ≤ Gen.maxNodeId) (hf : w.faults = true :: rest) :
-    (hIdRequest m w).1 = .error (.lib .transportFailed) ∧
+theorem registered_before_written (m : Msg) (w : W) (f : Fault) (x : Exn) (rest : List Fault) (hcmd : m.cmd = 3)
+    (hle : nextId w.st.nodes ≤ Gen.maxNodeId) (hf : w.faults = f :: rest) (hx : f.exn = some x) :
+    (hIdRequest m w).1 = .error x ∧
     (hIdRequest m w).2.st.nodes.has (nextId w.st.nodes) = true := by
   have hng : ¬ nextId w.st.nodes > Gen.maxNodeId := by omega
   have hs := gwSend_direct (idResponse m (nextId w.st.nodes)) Gen.bufIdResponse (Or.inr (Or.inr (Or.inl hcmd)))
   simp only [idResponse] at hs
   simp only [hIdRequest, M.bind, M.getSt, hng, if_false, M.seq, allocNode, M.modifySt, hs]
-  rw [transportWrite_fail _ _ rest (by simpa using hf)]
+  rw [transportWrite_abort _ _ f x rest (by simpa using hf) hx]
   simp [PDict.has_set_self]
 
 /-- **No id left**: the too-many-nodes error, nothing written, registry unchanged. -/
